@@ -185,3 +185,46 @@ pub fn decode_index(data: &[u8], h: &NodeHead, version: u64, b: u8) -> Option<us
         None
     }
 }
+
+/// Independent point lookup over a whole file: header/footer by the format
+/// description, then one transition per key byte (linear scan, ascending
+/// inputs), outputs summed, final output added at a final node.
+pub fn indep_get(data: &[u8], key: &[u8]) -> Option<u64> {
+    let version = read_le(data, 0, 8);
+    let end = if version >= 3 { data.len() - 4 } else { data.len() };
+    let mut addr = read_le(data, end - 8, 8) as usize;
+    let mut acc: u64 = 0;
+    let mut i = 0;
+    while i < key.len() {
+        let h = decode_head(data, addr, version);
+        let mut found = false;
+        let mut j = 0;
+        while j < h.ntrans {
+            let (inp, out, tgt) = decode_trans(data, &h, j);
+            if inp == key[i] {
+                acc += out;
+                addr = tgt;
+                found = true;
+                break;
+            }
+            j += 1;
+        }
+        if !found {
+            return None;
+        }
+        i += 1;
+    }
+    let h = decode_head(data, addr, version);
+    if h.is_final {
+        Some(acc + h.final_output)
+    } else {
+        None
+    }
+}
+
+/// Key count stored in the footer.
+pub fn indep_len(data: &[u8]) -> u64 {
+    let version = read_le(data, 0, 8);
+    let end = if version >= 3 { data.len() - 4 } else { data.len() };
+    read_le(data, end - 16, 8)
+}
